@@ -255,7 +255,8 @@ Theorem C09_faults_every_cut : forall (V : Type) (d : V) (rd : repr -> V -> V)
 Proof. exact every_cut_rejected. Qed.
 Print Assumptions C09_faults_every_cut.
 
-(* every cut behind the data block (only bytes of the trailer are lost): the same field *)
+(* every cut behind the data block that leaves the end-of-data marker in place (flag true; only
+   later trailer bytes are lost): the same field.  A cut before the marker clears the flag: C09_faults_tail *)
 Theorem C09_faults_trailer_cut_same : forall (V : Type) (d : V) (rd : repr -> V -> V)
     (fl : ovf_file V) (side : option sidecar) (f' : ofield V) (k : nat),
   is_binary (f_rep fl) = true -> decode d rd fl side = OK f' -> (announced fl <= k)%nat ->
